@@ -69,6 +69,30 @@ prop('C17', level='proof', modules=['Polyseed.Props.C17'], suites=[],
      note=PROOF_NOTE + 'The composed-form bound assumes the injected NFC does not lengthen a phrase (hypothesis hnfc; observed on every encode of the run).',
      technique='Lean 4 proof (kernel-evaluated per-position maxima of the regenerated tables) + extremal witness seeds on the real code',
      assumptions=['NFC composition does not lengthen a string'])
+prop('C01', level='proof', modules=['Polyseed.Props.C01'], suites=['pack'],
+     api=dict(cone=['encode', 'decode', 'decodex', 'create', 'load', 'dump', 'store', 'keygen'], weights=dict(roundtrip=8, crypt=1, storage=1)), extra='extra_norm',
+     text='Theorems decodeExplicit_encode (for EVERY canonical supported seed, coin < 2048 and language whose table passed the kernel check: explicit decoding of the encoded phrase returns OK and the identical seed), decode_encode (auto-detection: that seed with that language, or the multiple-languages status; nothing else), decodeExplicit_wrong_coin, normOK_ascii. They rest on polyToData_dataToPoly (packing round trip, all seeds), the GF(2048) algebra, splitN_joinWords, findAll_words (from the tables) and one explicit hypothesis NormOK about the injected normalisers (proved for ASCII phrases, validated by S-norm for the others). S-api performs round trips in all languages with real NFC/NFKD (utf8proc) and compares seeds, serialized bytes and KDF inputs.',
+     note=PROOF_NOTE + 'NormOK (NFKD(NFC(phrase)) = words joined by single spaces) is a statement about Unicode data outside the repository: validated by exhaustive execution over all 20480 words and separators with two independent normalisers, not proved.',
+     technique='Lean 4 proof (round trip through packing, checksum, tokeniser and table lookup; hypothesis NormOK) + API round trips with real normalisers',
+     assumptions=['NormOK for non-ASCII phrases; allocation succeeds (explicit hypothesis); coin < 2048'])
+prop('C07', level='proof', modules=['Polyseed.Props.C07'], suites=['find'], extra='extra_prefix_words',
+     text='Theorems about the tables REGENERATED from the current tree: frozen (= the committed pinned lists: names, flags, separators, all 20480 words), tables_ok / find_full_word (every word is found at its own index by the library search: bsearch decision-tree certificate for the 8 sorted lists under the language comparator, first-match + bitmap distinctness for the 2 Chinese lists), words_distinct, word_bytes, prefix4_distinct (bitmap over base-27 prefix codes), prefix_languages, accents_imply_compose, empty_token. All by kernel evaluation (decide +kernel), ~1 min on 16 cores when a list changed. The normalisation clauses are validated by exhaustive execution (S-norm), not proved. The literal clause "no word is a prefix of another" is false for 49 English + 30 Spanish three-letter words: KNOWN-FINDINGs, one per word.',
+     note=PROOF_NOTE + 'Pinned/ is trusted to be the published lists (generated once from the pinned commit). NFKD/NFC facts are about Unicode data outside the repository: executed exhaustively with unicodedata and utf8proc.',
+     technique='Lean 4 proof by kernel evaluation over the regenerated tables (certificate checkers proved sound) + exhaustive normaliser execution',
+     assumptions=['plain char signed (model parameter sgn = true); see C19'])
+prop('C08', level='proof', modules=['Polyseed.Props.C08'], suites=['find'],
+     api=dict(cone=['decode', 'decodex'], weights=dict(variants=8, badtokens=4, roundtrip=1)),
+     text='(under construction) find_exact_iff for the exact languages; S-find exhaustive per word',
+     note=PROOF_NOTE, technique='Lean 4 proof + exhaustive correspondence on find_word', assumptions=[])
+prop('C19', level='other', modules=['Polyseed.Props.C19'], suites=[], extra='extra_sign',
+     text='(under construction)', note=PROOF_NOTE, technique='Lean 4 theorem about the model parameter + two builds', assumptions=[],
+     explanation='two char-signedness builds of the tree run the same scripts; their transcripts are compared with each other and with the model')
+prop('C09', level='proof', modules=['Polyseed.Props.C09'], suites=['detect'],
+     api=dict(cone=['decode', 'decodex'], weights=dict(badtokens=5, mixed=4, variants=3, faults=2, garbage=2, roundtrip=1)),
+     text='Theorems phraseDecode_cases (auto-detection = case split on the languages that recognise ALL tokens: none/one/several -> language error/OK with that language/multiple languages, regardless of checksums), decode_eq_explicit (on success: exactly the outcome, state and events of explicit decoding with that language), decode_status and decodeExplicit_status (precedence: word count, language, checksum, memory, unsupported), splitN_inv / strSplit_16 (16 is returned only for exactly 16 space-free tokens joined by single spaces plus at most one trailing space). All generic in the language list. Correspondence: phrase_decode on token lists with common words, foreign/empty/garbage tokens; API decodes with doubled/leading/trailing/ideographic separators, 15/17 tokens, failing allocators.',
+     note=PROOF_NOTE + 'For non-ASCII input the tokenised string is what the injected NFKD returns (may truncate to the buffer size): the dependency contract.',
+     technique='Lean 4 proof (generic case analysis of the detection loop and tokeniser inversion) + correspondence on phrase_decode and API decodes',
+     assumptions=[])
 prop('C06', level='proof', modules=['Polyseed.Props.C06'], suites=['store'],
      text='Theorems store_bytes, load_store, load_ok_iff (for EVERY list of 32 bytes: accepted iff it is byte-for-byte the image of a canonical supported seed), store_of_loaded, load_status (precedence memory > format > checksum > unsupported), dataLoad_format_iff. polyseed_data_store/load are compared with the model on valid images, field-wise mutations (exhaustive in the thorough tier) and random buffers.',
      note=PROOF_NOTE + 'Modelled, not verified: storage.c and polyseed_load (hand transcription).',
@@ -242,6 +266,144 @@ def extra_c17(ctx, pid, viol, stats):
                                       script=s2, suite='witness', variant='asan', found_input=True))
             for (i, cb, mb) in r2.mismatches[:2]:
                 viol.append(Violation('correspondence', 'corr:witness', 'extremal seed, language %d: code and model disagree' % li, script=s2, expected=mb, observed=cb, suite='witness', variant='asan'))
+    st['wall'] = time.time() - t0
+
+
+def extra_norm(ctx, pid, viol, stats):
+    """S-norm: the normalisation clauses of C07 and the instances of C01's NormOK hypothesis, by exhaustive
+    execution of two independent normalisers (Python unicodedata, utf8proc through the harness) over all words."""
+    import unicodedata
+    t0 = time.time()
+    st = stats.setdefault('norm', dict(evaluations=0, distinct=set(), samples=[], variants=['asan'], wall=0.0, exhaustive=True, mismatches=0, hist={},
+                                       note='all 20480 words and all separators: NFKD(w)=w, NFKD(NFC(w))=w, NFKD(sep)=space, by unicodedata and by utf8proc; sampled whole phrases'))
+    Ls = ctx.langs
+    script = []
+    want = {}
+    for li in range(Ls.n):
+        L = Ls.langs[li]
+        for wi, w in enumerate(Ls.words(li)):
+            try:
+                u = w.decode('utf-8')
+            except UnicodeDecodeError:
+                viol.append(Violation('oracle', 'norm:utf8', 'lang %d word %d is not valid UTF-8: %s' % (li, wi, w.hex()), script=['word %d %d' % (li, wi)], found_input=True))
+                continue
+            st['evaluations'] += 1
+            if unicodedata.normalize('NFKD', u) != u:
+                viol.append(Violation('oracle', 'norm:nfkd', 'lang %d word %d "%s" is not NFKD-normalised' % (li, wi, u), script=['word %d %d' % (li, wi)], found_input=True))
+            if unicodedata.normalize('NFKD', unicodedata.normalize('NFC', u)) != u:
+                viol.append(Violation('oracle', 'norm:nfc-nfkd', 'lang %d word %d "%s" is not stable under NFC then NFKD' % (li, wi, u), script=['word %d %d' % (li, wi)], found_input=True))
+            if any(b >= 0x80 for b in w):
+                script.append('norm nfkd ' + w.hex())
+                want[script[-1]] = w.hex()
+                script.append('norm nfkd ' + unicodedata.normalize('NFC', u).encode().hex())
+                want[script[-1]] = w.hex()
+        sep = L['separator']
+        if unicodedata.normalize('NFKD', sep.decode()) != ' ':
+            viol.append(Violation('oracle', 'norm:sep', 'separator of lang %d does not normalise to one ASCII space' % li, script=['langname %d' % li], found_input=True))
+        script.append('norm nfkd ' + sep.hex())
+        want[script[-1]] = '20'
+    rnd = ctx.rnd('norm')
+    for _ in range(300 if ctx.thorough else 60):
+        li = rnd.randrange(Ls.n)
+        idx = [rnd.randrange(2048) for _ in range(16)]
+        ph = Ls.phrase(li, idx)
+        script.append('norm nfkd ' + ph.hex())
+        want[script[-1]] = b' '.join(Ls.words(li)[i] for i in idx).hex()
+    rc, header, ops, err = core.run_c_only(ctx.tree, 'asan', script, 'norm')
+    st['evaluations'] += len(ops)
+    for op in ops:
+        st['distinct'].add(op.head)
+        if want.get(op.head) is not None and op.kv('out') != want[op.head]:
+            viol.append(Violation('oracle', 'norm:utf8proc', 'utf8proc: %s gives %s, expected %s' % (op.head, op.kv('out'), want[op.head]), script=[op.head], found_input=True))
+    if ops:
+        st['samples'].append(ops[len(ops) // 2].block())
+    st['wall'] = time.time() - t0
+
+
+def extra_prefix_words(ctx, pid, viol, stats):
+    """the literal clause of C07 'no word is a prefix of another' (abbreviating languages), on the tables of the current tree"""
+    Ls = ctx.langs
+    st = stats.setdefault('prefix-words', dict(evaluations=0, distinct=set(), samples=[], variants=[], wall=0.0, exhaustive=True, mismatches=0, hist={},
+                                               note='all ordered pairs of words of the six abbreviating languages'))
+    for li in range(Ls.n):
+        L = Ls.langs[li]
+        if not L['prefix']:
+            continue
+        ws = sorted(Ls.words(li))
+        for a, b in zip(ws, ws[1:]):
+            st['evaluations'] += 1
+            if b.startswith(a):
+                key = 'prefix-word:%s:%s' % (L['name_en'].decode(), a.decode('utf-8', 'replace'))
+                st['distinct'].add(key)
+                viol.append(Violation('oracle', key, '%s word "%s" is a prefix of "%s"' % (L['name_en'].decode(), a.decode('utf-8', 'replace'), b.decode('utf-8', 'replace')),
+                                      script=['find %d %s' % (li, a.hex())], found_input=True))
+    extra_norm(ctx, pid, viol, stats)
+
+
+def extra_sign(ctx, pid, viol, stats):
+    """S-sign: the same scripts against a -fsigned-char and a -funsigned-char build of the tree; each is compared
+    with the model, and the two real transcripts are compared with each other: a difference IS the failing input."""
+    t0 = time.time()
+    st = stats.setdefault('sign', dict(evaluations=0, distinct=set(), samples=[], variants=['asan', 'unsigned'], wall=0.0, exhaustive=False, mismatches=0, hist={},
+                                       note='find/pdecode unit scripts and API scripts (all languages; composed, decomposed, abbreviated, unaccented phrases; non-ASCII passwords) run on both char signedness builds'))
+    Ls = ctx.langs
+    rnd = ctx.rnd('sign')
+    script = [suites.INJECT, 'features 7']
+    # unit level: words, abbreviations, unaccented forms in every language
+    for li in range(Ls.n):
+        words = Ls.words(li)
+        for wi in rnd.sample(range(len(words)), 60 if ctx.thorough else 15):
+            for tok in suites.word_variants(Ls.langs[li], words[wi], rnd, False)[:8]:
+                if tok and b'\x00' not in tok:
+                    script.append('find %d %s' % (li, suites.hx(tok)))
+    # API level: a fixed seed encoded and decoded in every language, in composed and decomposed form, with a non-ASCII password
+    import unicodedata
+    for rep in range(6 if ctx.thorough else 2):
+        sec = [rnd.randrange(256) for _ in range(18)] + [rnd.randrange(64)]
+        b, f = rnd.randrange(1024), rnd.choice([0, 1, 5])
+        script.append('load 0 ' + spec.storage(sec, b, f).hex())
+        for li in range(Ls.n):
+            coin = rnd.randrange(2048)
+            p = spec.poly(sec, b, f, coin)
+            ph = Ls.phrase(li, p)
+            nf = Ls.phrase_nfkd(li, p)
+            script.append('encode 0 %d %d' % (li, coin))
+            for s_ in (ph, nf, b' '.join(Ls.words(li)[c] for c in p)):
+                script.append('decodex 1 %d %d %s' % (coin, li, s_.hex()))
+                script.append('store 1')
+                script.append('free 1')
+                script.append('decode 1 %d %s' % (coin, s_.hex()))
+                script.append('free 1')
+        for pw in ('pässwörd'.encode(), unicodedata.normalize('NFD', 'pässwörd').encode(), '日本語'.encode(), b'ascii'):
+            script.append('crypt 0 ' + pw.hex())
+            script.append('store 0')
+            script.append('keygen 0 0 32')
+        script.append('free 0')
+    results = {}
+    for variant in ('asan', 'unsigned'):
+        res = core.run_pair(ctx.tree, variant, script, 'sign')
+        results[variant] = res
+        st['evaluations'] += res.ops
+        for op in res.c_ops:
+            st['distinct'].add(op.head)
+        if res.crash:
+            viol.append(Violation('crash', 'crash:' + variant, 'build %s crashed: %s' % (variant, res.crash[:1200]), script=script[:400], suite='sign', variant=variant, found_input=True))
+        for (i, cb, mb) in res.mismatches[:3]:
+            st['mismatches'] += 1
+            viol.append(Violation('correspondence', 'corr:sign:' + variant, 'build %s: the real code and the model (sgn=%s) disagree at op %d' % (variant, 'signed' if variant == 'asan' else 'unsigned', i),
+                                  script=context_script(script, res, i), expected=mb, observed=cb, suite='sign', variant=variant))
+    a, b = results['asan'].c_ops, results['unsigned'].c_ops
+    n = 0
+    for i in range(min(len(a), len(b))):
+        if a[i].canon() != b[i].canon():
+            n += 1
+            if n <= 3:
+                viol.append(Violation('oracle', 'char-signedness', 'the result of "%s" depends on the signedness of plain char: signed build gives %s, unsigned build gives %s' % (
+                    a[i].head[:160], (a[i].events + [a[i].result])[-1], (b[i].events + [b[i].result])[-1]),
+                    script=context_script(script, results['asan'], i), expected=a[i].block(), observed=b[i].block(), suite='sign', variant='unsigned', found_input=True))
+    st['hist']['ops differing between the builds'] = n
+    if a:
+        st['samples'].append(a[len(a) // 2].block()[:4])
     st['wall'] = time.time() - t0
 
 
